@@ -10,7 +10,7 @@ from ..core import Result, fs, F
 
 ID = "C02"
 RULE = ("seeded VRPTW instances (2..5 nodes; windows in quarters incl. inf and zero width; unreachable customers; costs of either sign) x "
-        "formulation (arc with unsorted/sparse/complete grids; path with pools of valid and invalid candidate routes; sequence with V in 0..3, "
+        "penalty given as float / int / numpy integer x formulation (arc with unsorted/sparse/complete grids; path with pools of valid and invalid candidate routes; sequence with V in 0..3, "
         "L in 3..5, strict/non-strict) x before/after the feasibility heuristic x mode x rho in {default, 0, 1/4, 3, -2}; brute force over all "
         "2^n vectors for n <= 14 (both tiers), 4000 (n <= 40) or 300 random vectors beyond; non-trivial = n >= 2 with at least one feasible and one infeasible vector "
         "examined; distinct = distinct case")
@@ -59,6 +59,9 @@ def gen(rng, tier):
         case["feas"] = rng.random() < 0.4
         rho = rng.choice(RHOS)
         case["rho"] = None if rho is None else fs(rho)
+        if rho is not None and rho.denominator == 1:
+            # "any penalty weight": a Python int or a numpy integer is as legitimate as a float (the arc-based A and b are integer arrays)
+            case["rho_kind"] = rng.choice(["float", "int", "npint"])
         if case.get("heur") is not None and rng.random() < 0.5:
             # the very same QUBO request before the heuristic changes the instance (a memoised answer would be stale afterwards)
             case["pre"] = list(case.get("pre", [])) + ["same"]
@@ -132,7 +135,9 @@ def run_case(case, drv, nmax=None):
         # inconsistent dimensions: the identity cannot even be stated; report what was found
         return res
     try:
-        Q, k, shape = VU.qubo_dense(o, case["feas"], None if rho is None else float(rho))
+        rho_arg = None if rho is None else {"int": int, "npint": np.int64}.get(case.get("rho_kind"), float)(rho)
+        res.features.append(f"rho_type:{type(rho_arg).__name__}")
+        Q, k, shape = VU.qubo_dense(o, case["feas"], rho_arg)
         q_err = None
     except Exception as e:  # noqa
         Q, k, shape, q_err = None, None, None, e
